@@ -365,17 +365,20 @@ func Verify(api frontend.API, c Circuit, assignment WireAssignment, proof Proof,
 	}
 
 	claims := newClaimsManager(c, assignment)
+	verifVerifyEntry(c, o.sorted, assignment, proof)
 
 	var firstChallenge []frontend.Variable
 	firstChallenge, err = getChallenges(o.transcript, getFirstChallengeNames(o.nbVars, o.transcriptPrefix))
 	if err != nil {
 		return err
 	}
+	verifTrace("first", -1, firstChallenge...)
 
 	wirePrefix := o.transcriptPrefix + "w"
 	var baseChallenge []frontend.Variable
 	for i := len(c) - 1; i >= 0; i-- {
 		wire := o.sorted[i]
+		verifTrace("wire", i)
 
 		if wire.IsOutput() {
 			claims.add(wire, firstChallenge, assignment[wire].Evaluate(api, firstChallenge))
